@@ -102,7 +102,7 @@ def run(res):
         out = r["out"] + ".dec_t%d_s%d" % (t, s)
         args = ["--svt", "--threads", str(t), "--who", "svt", "-w", str(c["w"]), "-h", str(c["h"]), "--bits", str(c["bits"])]
         if t > 1:
-            args += ["--trace", "dec,decsb", "--trace-out", out + ".trc"]     # row-job and superblock events of the multi-threaded stages
+            args += ["--trace", "dec,decsb,decdpb", "--trace-out", out + ".trc"]     # row-job and superblock events of the multi-threaded stages
         if s:
             args += ["--perturb", "%d:%d:%d" % (rng.randrange(1, 10 ** 6), 200, 0)]      # yields only (the decoder busy-waits)
             if t > 1:
@@ -110,12 +110,14 @@ def run(res):
                 # regularly catches up with the row above and really has to wait at the top-right sync point
                 args += ["--trace-jitter", "%d:%d:%d" % (rng.randrange(1, 10 ** 6), 120, 400)]
         d = common.run_dec(r["out"] + ".pkts", out, args, timeout=90, variant="hooks")
+        d["loadavg"] = os.getloadavg()[0]
         if os.path.exists(out):
             os.unlink(out)
         d["rows"] = d["sbs"] = None
         if os.path.exists(out + ".trc"):
             d["rows"] = [{"ev": "Reset", "a": []}] + [{"ev": ev, "a": a} for _, _, _, _, ev, a in vlib.read_trace(out + ".trc", "dec")]
             d["sbs"] = [{"ev": "Reset", "a": []}] + [{"ev": ev, "a": a} for _, _, _, _, ev, a in vlib.read_trace(out + ".trc", "decsb")]
+            d["dpb"] = [{"ev": "Reset", "a": []}] + [{"ev": ev, "a": a} for _, _, _, _, ev, a in vlib.read_trace(out + ".trc", "decdpb")]
             os.unlink(out + ".trc")
         return r, t, s, d
     b = corpus.Bundle()
@@ -127,13 +129,20 @@ def run(res):
         key = {"threads_ge_2": int(t >= 2), "regime": "normal", "bits": r["case"]["bits"]}
         if any(e["ev"] == "Timeout" for e in d["events"]):
             ph = [e.get("phase") for e in d["events"] if e["ev"] == "Timeout"]
-            res.violation("multi-threaded decode hangs (%s): %s" % (ph, desc), d["log"][-800:], key=dict(key, kind="hang"))
+            # this regime presupposes a host that is not oversubscribed (<= 2 decodes at a time): when other work keeps more
+            # runnable threads than cores, the stall is the recorded oversubscription finding, not a new one
+            la = max(d.get("loadavg", 0.0), os.getloadavg()[0])
+            if la > (os.cpu_count() or 16):
+                key["regime"] = "oversubscribed"
+            res.violation("multi-threaded decode hangs (%s, host load %.0f): %s" % (ph, la, desc), d["log"][-800:], key=dict(key, kind="hang"))
             continue
         if d["rc"] not in (0,) or not any(e["ev"] == "DecTeardown" for e in d["events"]):
             res.violation("multi-threaded decode crashed or did not tear down (rc=%s): %s" % (d["rc"], desc), d["log"][-800:], key=dict(key, kind="crash"))
         b.add("Observe", stream.observe_events(r["desc"], None, d), desc)
         if d.get("rows") and len(d["rows"]) > 1:
             b.add("DecRowsTrace", d["rows"], desc)
+        if d.get("dpb") and len(d["dpb"]) > 1:
+            b.add("DecDpbTrace", d["dpb"], desc)
         if d.get("sbs") and len(d["sbs"]) > 1:
             b.add("DecWaveTrace", d["sbs"], desc)
         elif t > 1 and d["rc"] == 0:
@@ -154,6 +163,9 @@ def run(res):
     res.sample({"superblock_trace_prefix": b.recs.get("DecWaveTrace", [])[:10]})
     b.validate(res, "DecWaveTrace", "C09 superblock wavefront inside the decoder stages (top-right sync of recon, deblocking, CDEF, restoration)",
                key_fn=lambda rej: {"kind": "sb_wavefront", "event": (rej.get("event") or {}).get("ev"), "stage": ((rej.get("event") or {}).get("a") or [None])[0]})
+    # the picture-buffer manager under multi-threading (DecDpbTrace.tla; its exhaustive model runs in C08)
+    b.validate(res, "DecDpbTrace", "C09 decoder picture-buffer manager under multi-threaded decoding follows DecDpb.tla",
+               key_fn=lambda rej: {"kind": "dpb", "event": (rej.get("event") or {}).get("ev")})
     if res.tier == "thorough":
         # oversubscribed regime: 10 concurrent decodes with up to 16 busy-waiting threads each and sleeps inside critical sections
         jo = [(r, t, 1 + i) for i, r in enumerate([x for x in rs if x["rc"] == 0][:2]) for t in (6, 10, 14, 16, 16)]
